@@ -321,6 +321,103 @@ def loose_fingerprint(fn) -> str:
     return hashlib.sha1((ast.dump(a) + "|" + "".join(ast.dump(x) for x in body) + "|" + type(fn).__name__).encode()).hexdigest()[:16]
 
 
+def _flatten_description_record(trees: Dict[str, ast.Module]) -> None:
+    import copy
+
+    for t in trees.values():
+        if not any(isinstance(n, (ast.Assign, ast.AnnAssign)) and isinstance(getattr(n, "value", None), ast.Call)
+                   and ast.unparse(n.value.func).split(".")[-1] in ("Lock", "RLock") for n in t.body):
+            continue
+        names_here = {(n.target.id if isinstance(n, ast.AnnAssign) and isinstance(n.target, ast.Name) else None) for n in t.body} | \
+            {tg.id for n in t.body if isinstance(n, ast.Assign) for tg in n.targets if isinstance(tg, ast.Name)}
+        if {"exec_nodes", "results", "DAG_PREFIX"} & names_here:
+            continue
+        for c in [x for x in t.body if isinstance(x, ast.ClassDef)]:
+            flds = [x for x in c.body if isinstance(x, ast.AnnAssign) and isinstance(x.target, ast.Name)]
+            if len(flds) != 3 or any(not isinstance(x, (ast.AnnAssign, ast.Expr)) for x in c.body):
+                continue
+            role: Dict[str, str] = {}
+            init: Dict[str, ast.AST] = {}
+            for x in flds:
+                an = ast.unparse(x.annotation)
+                fac = None
+                if isinstance(x.value, ast.Call) and ast.unparse(x.value.func).split(".")[-1] == "field":
+                    fac = next((k.value for k in x.value.keywords if k.arg == "default_factory"), None)
+                if fac is None:
+                    break
+                canon = "exec_nodes" if ("StrictDict" in an and "ExecNode" in an) else ("results" if "StrictDict" in an else ("DAG_PREFIX" if an.replace(" ", "") == "List[str]" else None))
+                if canon is None or canon in role.values():
+                    break
+                role[x.target.id] = canon
+                init[canon] = ast.Call(func=copy.deepcopy(fac), args=[], keywords=[]) if ast.unparse(fac) != "list" else ast.List(elts=[], ctx=ast.Load())
+            if len(role) != 3:
+                continue
+            inst = [n for n in t.body if isinstance(n, (ast.Assign, ast.AnnAssign)) and isinstance(getattr(n, "value", None), ast.Call)
+                    and ast.unparse(n.value.func) == c.name and not n.value.args and not n.value.keywords]
+            if len(inst) != 1:
+                continue
+            tg = inst[0].targets[0] if isinstance(inst[0], ast.Assign) else inst[0].target
+            if not isinstance(tg, ast.Name):
+                continue
+            V = tg.id
+            anns = {role[x.target.id]: x.annotation for x in flds}
+
+            def three(prefix: Optional[ast.AST], at: ast.AST) -> List[ast.stmt]:
+                out = []
+                for canon in ("exec_nodes", "results", "DAG_PREFIX"):
+                    target = ast.Name(id=canon, ctx=ast.Store()) if prefix is None else ast.Attribute(value=copy.deepcopy(prefix), attr=canon, ctx=ast.Store())
+                    if prefix is None:
+                        st = ast.AnnAssign(target=target, annotation=copy.deepcopy(anns[canon]), value=copy.deepcopy(init[canon]), simple=1)
+                    else:
+                        st = ast.Assign(targets=[target], value=copy.deepcopy(init[canon]))
+                    out.append(ast.copy_location(st, at))
+                return out
+
+            def is_reset(st: ast.stmt) -> Optional[ast.AST]:
+                """`<m>.V = <m>.R()` / `V = R()` -> the prefix expression (None for a bare name); else a sentinel."""
+                if isinstance(st, ast.Assign) and len(st.targets) == 1 and isinstance(st.value, ast.Call) and not st.value.args and not st.value.keywords \
+                        and ast.unparse(st.value.func).split(".")[-1] == c.name:
+                    t0 = st.targets[0]
+                    if isinstance(t0, ast.Attribute) and t0.attr == V:
+                        return t0.value
+                    if isinstance(t0, ast.Name) and t0.id == V:
+                        return "bare"  # type: ignore[return-value]
+                return "no"  # type: ignore[return-value]
+
+            def rewrite(stmts: List[ast.stmt]) -> List[ast.stmt]:
+                out: List[ast.stmt] = []
+                for st in stmts:
+                    rs = is_reset(st)
+                    if rs != "no":
+                        out += three(None if rs == "bare" else rs, st)
+                        continue
+                    for fld in ("body", "orelse", "finalbody"):
+                        v = getattr(st, fld, None)
+                        if isinstance(v, list) and v and isinstance(v[0], ast.stmt):
+                            setattr(st, fld, rewrite(v))
+                    if isinstance(st, ast.Try):
+                        for h in st.handlers:
+                            h.body = rewrite(h.body)
+                    out.append(st)
+                return out
+
+            class _F(ast.NodeTransformer):
+                def visit_Attribute(self, node: ast.Attribute):
+                    self.generic_visit(node)
+                    if node.attr in role and isinstance(node.value, ast.Attribute) and node.value.attr == V:
+                        return ast.copy_location(ast.Attribute(value=node.value.value, attr=role[node.attr], ctx=node.ctx), node)
+                    if node.attr in role and isinstance(node.value, ast.Name) and node.value.id == V:
+                        return ast.copy_location(ast.Name(id=role[node.attr], ctx=node.ctx), node)
+                    return node
+            for t2 in trees.values():
+                t2.body = rewrite(t2.body)
+                _F().visit(t2)
+                ast.fix_missing_locations(t2)
+            t.body = [x for x in t.body if x is not c]
+            ast.fix_missing_locations(t)
+            return
+
+
 def canonical_roles(trees: Dict[str, ast.Module]) -> Dict[str, str]:
     """Rewrites the trees in place; returns {usual name: actual name} for everything that was found under another name."""
     from .known_names import BODY_FINGERPRINT, KNOWN_FUNCTIONS
@@ -379,6 +476,9 @@ def canonical_roles(trees: Dict[str, ast.Module]) -> Dict[str, str]:
         if canon in names_used or len(set(cands_)) != 1:
             continue
         mapping[canon] = cands_[0]
+    # the description state grouped into one module-level record `V = R()` (R a class of the same module whose fields are the two
+    # registries and the prefix stack): read as the three module-level names again
+    _flatten_description_record(trees)
     # the two registries of the description in progress (module-level StrictDict()s next to the description lock): found by their
     # annotations when they were renamed; the usual names are ordinary words elsewhere, so the renaming is limited to the new names
     for t in trees.values():
